@@ -20,7 +20,7 @@ from .runner import PropertyCheck
 RTOL = Fraction(1e-5)       # exact value of the double np.allclose uses
 ATOL = Fraction(1e-8)
 UNIT_FACTOR = {'deg': Fraction(1), 'arcmin': Fraction(1, 60), 'arcsec': Fraction(1, 3600),
-               'rad': Fraction(57.29577951308232), 'mas': Fraction(1, 3600000)}
+               'rad': Fraction(57.29577951308232), 'mas': Fraction(1, 3600000), 'hourangle': Fraction(15)}
 FRAGILE = Fraction(1, 10 ** 9)
 
 PIX = {
@@ -816,7 +816,10 @@ class Check(PropertyCheck):
             'inside / outside / in the asymmetric part of the allclose band; vertex count +-1 and 1-vs-n broadcast; frame; '
             'unit change with perturbation), every meta / visual key (changed value, removed, added), class swap, unit '
             're-expression, identical rebuild (also with reordered meta keys), NaN parameter; nested-operand perturbations '
-            'for compounds; Regions lists (0-6 regions) x slices (None / negative / out-of-range / step incl. 0) or copy() x '
+            'for compounds; UNIT FAMILY: the same physical angles written in every ordered pair of units from {deg, arcmin, '
+            'arcsec, mas, rad, hourangle} as integer multiples 1..5000 exact in both units (one quantity at a time and all '
+            'at once; must compare equal both ways, and astropy\'s answer for the bare quantities is recorded to tell its '
+            'own rounding from the regions code); Regions lists (0-6 regions) x slices (None / negative / out-of-range / step incl. 0) or copy() x '
             '1-8 append/extend/insert/pop/reverse/item edits on either list; and programs over up to 8 Regions objects '
             'created in every way (Regions(list / tuple / [] / () / no argument / another Regions), Regions.parse, copy(), '
             'whole / partial / EMPTY slices) with 5-18 operations append / extend(list) / extend(Regions, also itself, '
@@ -829,7 +832,8 @@ class Check(PropertyCheck):
         '(TypeError for non-equivalent frames, ValueError for shapes that do not broadcast) behave as the formulas in '
         'Impl/Value.lean, evaluated in exact arithmetic; answers whose exact margin is within 1e-9 relative of a '
         'tolerance boundary, and cross-unit equalities whose float conversion is inexact (always the case for rad), '
-        'are counted as boundary-excepted and not compared',
+        'are counted as boundary-excepted in the MODEL comparison (the oracle still requires mathematically equal '
+        'unit-family pairs to compare equal: see finding F15u)',
         'copy.deepcopy is an isomorphic copy of the reachable object graph onto fresh objects (sharing inside one '
         'call is preserved by its memo); immutable scalars (float, int, str, bool, None, functions) have no identity',
         'the tolerance of PixCoord equality is numpy\'s allclose rule |a-b| <= atol + rtol*|b| with rtol = 1e-5, '
@@ -880,6 +884,18 @@ class Check(PropertyCheck):
                         cases.append(self.gen_eq(g, cls, which, None, m, descend=False))
                 for what in ('class', 'unit', 'unit', 'same', 'same', 'nan', 'refl'):
                     cases.append(self.gen_eq(g, cls, what, descend=False))
+                # unit-variation family: every ordered pair of units x integer multiples, one quantity
+                # at a time and all at once
+                qfields = [nm for nm, k in ALL[cls] if k in ('ang', 'posang')]
+                if qfields:
+                    units = ['deg', 'arcmin', 'arcsec', 'mas', 'rad', 'hourangle']
+                    for ua in units:
+                        for ub in units:
+                            if ua != ub:
+                                for _ in range(2):
+                                    nn = rng.choice([rng.randint(1, 120), rng.randint(1, 120), rng.randint(1, 5000)])
+                                    cases.append(self.gen_eq(g, cls, 'unitsweep', rng.choice(qfields + [None]),
+                                                             (ua, ub, nn), descend=False))
                 if cls.startswith('Compound'):
                     # perturbations of a field of a nested operand (any depth)
                     for _ in range(12):
@@ -1066,6 +1082,32 @@ class Check(PropertyCheck):
                     un2 = r.choice([x for x in ['deg', 'arcmin', 'arcsec', 'rad'] if x != q['unit']])
                     exact = Fraction(v) * UNIT_FACTOR[q['unit']] / UNIT_FACTOR[un2]
                     set_param(tgt, n, {'t': 'qty', 'v': fl(float(exact)), 'unit': un2})
+        if what == 'unitsweep':
+            # the SAME physical angle written in two units (fmode = (unit_a, unit_b, n)): integer
+            # multiples, exact in binary floating point in both units (except for rad)
+            ua, ub, n = fmode
+            qs = [nm for nm, k in ALL[tcls] if k in ('ang', 'posang')]
+            if field in qs:
+                qs = [field]
+            ta = a
+            for pth in path:
+                ta = get_param(ta, pth)
+            info.update(units=[ua, ub], n=n, fields=qs, exact='rad' not in (ua, ub))
+            for k_, nm in enumerate(qs):
+                m = n + k_                      # a different multiple for each quantity
+                if 'rad' in (ua, ub):
+                    other = ub if ua == 'rad' else ua
+                    vo = float(m)
+                    vr = float(Fraction(vo) * UNIT_FACTOR[other] / UNIT_FACTOR['rad'])
+                    va, vb = (vr, vo) if ua == 'rad' else (vo, vr)
+                else:
+                    big, small = (ua, ub) if UNIT_FACTOR[ua] >= UNIT_FACTOR[ub] else (ub, ua)
+                    ratio = UNIT_FACTOR[big] / UNIT_FACTOR[small]
+                    assert ratio.denominator == 1
+                    vbig, vsmall = float(m), float(m * ratio)
+                    va, vb = (vbig, vsmall) if ua == big else (vsmall, vbig)
+                set_param(ta, nm, {'t': 'qty', 'v': fl(va), 'unit': ua})
+                set_param(tgt, nm, {'t': 'qty', 'v': fl(vb), 'unit': ub})
         if what == 'param':
             n, k = (field, tk[field]) if field in tk else r.choice(ALL[tcls])
             info['field'] = n
@@ -1429,6 +1471,13 @@ class Check(PropertyCheck):
                     obs['given_ok'] = given
                 if 'rp_vertices_ok' in extra:
                     obs['rp_vertices_ok'] = extra['rp_vertices_ok']
+        if case['kind'] == 'eq' and case['info'].get('what') == 'unitsweep' and 'a' in world and 'b' in world:
+            # what astropy itself answers for the bare quantities (separates astropy's own rounding
+            # from anything the regions code adds)
+            qa = [getattr(world['a'], f) for f in case['info']['fields']]
+            qb = [getattr(world['b'], f) for f in case['info']['fields']]
+            obs['bare_ab'] = all(bool(x == y) for x, y in zip(qa, qb))
+            obs['bare_ba'] = all(bool(y == x) for x, y in zip(qa, qb))
         if case['kind'] in ('regions', 'lists'):
             obs['leaks'] = extra.get('leaks', [])[:5]
             obs['shared'] = extra.get('shared', [])[:5]
@@ -1550,6 +1599,13 @@ class Check(PropertyCheck):
                 return V
             if nab != (not ab) or nba != (not ba):
                 bad('ne_not_negation', f'a==b {ab} a!=b {nab} b==a {ba} b!=a {nba}')
+            if what == 'unitsweep':
+                if info.get('exact') and (ab is not True or ba is not True):
+                    bad('eq_unit_sensitive', f'the same angles in {info["units"][0]} and {info["units"][1]} '
+                        f'(multiple {info["n"]}, fields {info["fields"]}): a==b {ab}, b==a {ba}; bare astropy '
+                        f'quantities: {obs.get("bare_ab")}, {obs.get("bare_ba")}', units=info['units'], n=info['n'],
+                        ab=ab, ba=ba, bare_ab=obs.get('bare_ab'), bare_ba=obs.get('bare_ba'))
+                return V
             if ab != ba and not frag:
                 bad('eq_asymmetric', f'a==b {ab} but b==a {ba}', a=info.get('a'), b=info.get('b'), mode=info.get('mode'))
                 return V
@@ -1643,6 +1699,11 @@ class Check(PropertyCheck):
         if fid == 'F2c':
             return (kind in ('copy_not_equal', 'copy_field_mismatch') and v.get('cls') == 'CompoundSkyRegion'
                     and (v.get('nonempty_meta') or v.get('field') in ('meta', 'visual')))
+        if fid == 'F15u':
+            # only when astropy's own Quantity comparison of the bare values already gives that answer
+            return (kind == 'eq_unit_sensitive' and v.get('bare_ab') is not None
+                    and v.get('ab') == v.get('bare_ab') and v.get('ba') == v.get('bare_ba')
+                    and not (v.get('bare_ab') and v.get('bare_ba')))
         if fid == 'F11c':
             return kind == 'eq_not_reflexive' and v.get('nan') is True
         return False
@@ -1651,6 +1712,8 @@ class Check(PropertyCheck):
         return isinstance(real['out'][-1], (list, bool)) or real['out'][-1] == 'ok'
 
     def bucket(self, case, real):
+        if case['kind'] == 'eq' and case['info'].get('what') == 'unitsweep':
+            return 'eq/unitsweep/' + '-'.join(case['info']['units'])
         if case['kind'] == 'copy':
             return f"copy/{case['how']}/{case['cls']}"
         if case['kind'] == 'eq':
